@@ -31,6 +31,27 @@ TRUSTED_BASE = [
     "interpreters rebuilt from /repo/src by gcc with -Dluai_makeseed(L)=<k>u; setarch -R to switch ASLR off; sha256",
     "modelled rather than verified: the Lua functions are mirrored by hand in coq/C07/Model.v; Lua's table.sort is modelled as insertion sort (same result on a total order)",
 ]
+THEOREM_CLASSES = {
+    "C07_ospairs_order_free": "main", "C07_ospairs_yields_sorted_entries": "main",
+    "C07_memoize_order_free": "main", "C07_memoize_order_free_lua_values": "main", "C07_memoize_once_per_class": "corollary",
+    "C07_is_used_is_reachability": "main", "C07_is_used_order_free": "main", "C07_is_used_total": "main",
+    "C07_is_used_all_is_reachability": "corollary",
+    "C07_typeid_same_codename_same_id": "corollary",
+    "C07_resolve_symbols_order_free_conditional": "corollary",
+    "C07_resolve_symbols_order_free_dependency_driven_abstract": "corollary",
+}
+UNPROVED = [
+    "EVERY clause of the statement at the level of the compiler (generated C, symbol and type names, compiler command line, diagnostics, --print-* outputs identical across processes / hash seeds / ASLR / cold-warm cache): observed by differential compilations only (3 interpreters x ASLR on/off x cold/warm, repository programs + generated programs, build-mode sequences, --cc names, print modes); the theorems are about five helper functions",
+    "resolve_steps_commute for the real Symbol:resolve_type (choice among several possible types, forced fallback): hypothesis of the conditional theorem; the dependency-driven instance is abstract (typeless state) and not corresponded",
+    "that memoize's real match on Type objects (Type.__eq) is an equivalence: discharged for the Lua value model on well-formed arguments only (C07_memoize_order_free_lua_values); NaN arguments break reflexivity",
+    "determinism of the ORDER in which types are first initialised (type ids) and in which declarations are added (ccontext add_declaration/concat_chunks): not modelled",
+    "table walks not modelled, by name: scope.lua `pairs(possible_rettypes)` (add_return_type/resolve_rettypes), cbuiltins.lua `pairs(cdefs.builtins_headers)`, scope.lua `next,unresolved_symbols` (only through the abstract resolve model), analyzercontext, ltable.c/lstate.c themselves",
+]
+MANIFEST_ENTRY = {
+    "text": "proof, partial - and the headline is differential: no clause of the statement is a theorem about the compiler; theorems cover five helpers in isolation (ospairs yields the sorted entries for every table order; memoize is order-free and evaluates once per class, premise discharged for the Lua value model; Symbol:is_used and the cached sequence DCE runs = reachability for every order, total; equal codenames -> equal type ids; an abstract resolve fixpoint is order-free if steps commute); 'same sources and options -> byte-identical C, names, command lines and diagnostics across processes, hash seeds, ASLR and cold/warm cache' is observed by differential compilations only",
+    "note": "trusted: coqc, regex scrape of iterators.ospairs / memoize / Symbol:is_used / gencodename / Type:_init, interpreters rebuilt with -Dluai_makeseed, setarch -R, harness/C07 (ops.lua, genprog.py), gcc/ar; cold/warm binary staleness is C08's (fixed 8d3d23d)",
+    "technique": "differential compilation under forced hash seeds / ASLR / cache states (the property, observed) + Coq models of five table-walking helpers corresponded against the Lua functions",
+}
 ASSUMPTIONS = [
     "Lua table iteration order = an arbitrary permutation of the entries (nothing else about next() is used)",
     "string comparison is byte order (C locale; the interpreter never calls setlocale)",
@@ -99,10 +120,10 @@ def _gen(ctx, problems):
         t = vlib.repo_read("lualib/nelua/" + f)
         uses[f] = {"ospairs": len(re.findall(r"\bospairs\(", t)), "pairs": len(re.findall(r"[^o\w]pairs\(", t)),
                    "next": len(re.findall(r"in next,", t))}
+    # (the memoize match and the is_used cycle guard are structural requirements of the models: their
+    #  absence is a translator failure above, not a parameter)
     txt = ("(* GENERATED by checks/C07.py from /repo - do not edit *)\n"
-           "Definition OSPAIRS_SORTS : bool := %s.\n"
-           "Definition MEMO_MATCH_EQ_OR_SHALLOW : bool := %s.\n"
-           "Definition ISUSED_CYCLE_GUARD : bool := %s.\n" % tuple("true" if x else "false" for x in (sorts, memo_match, guard)))
+           "Definition OSPAIRS_SORTS : bool := %s.\n" % ("true" if sorts else "false"))
     vlib.write_if_changed(os.path.join(vlib.coq_dir(ID), "Gen.v"), txt)
     return {"ospairs_sorts": sorts, "memoize_match_eq_or_shallow": memo_match, "is_used_cycle_guard": guard, "table_walks": uses}
 
@@ -608,8 +629,5 @@ def correspond(ctx):
         "op_cases": len(cases), "oracle_failures": n_oracle, "model_mismatches": n_mismatch,
         "programs": len(progs), "compilations": len(jobs), "nondeterministic_programs": n_nondet,
         "traces_validated_against_impl": len(cases),
-        "unproved": ["resolve_steps_commute (hypothesis of the conditional theorem) is discharged only for dependency-driven resolution (C07_resolve_symbols_order_free_dependency_driven); for inference among several possible types and for the forced fallback it is not",
-                     "fuel sufficiency of the is_used model (None is excluded by the premise of the theorems)",
-                     "that memoize's match is an equivalence for the values the compiler passes (types with __eq, tables)",
-                     "every other table walk of the compiler (analyzer, cgenerator, ccontext ...) is covered by the differential compilations only"],
+        "unproved": UNPROVED,
     }
